@@ -240,6 +240,8 @@ def register(lib):
         hay, pat, to = str_items(args[0]), str_items(args[1]), str_items(args[2])
         if not all(type(x) is int for x in pat) or not pat:
             raise Unsupported('replace with symbolic/empty pattern')
+        if len(pat) == 1 and pat[0] < 0x80 and any(type(x) is not int for x in hay):
+            return new_string(lib.replace_items(hay, pat[0], to))
         out = []
         i = 0
         n, m = len(hay), len(pat)
